@@ -167,6 +167,11 @@ func GenShapedScenario(r *rand.Rand, masterIsA bool, na, nb int, withDefer bool)
 		var out []MsgSpec
 		for i := 0; i < n; i++ {
 			m := MsgSpec{MID: GenMID(r, prefix, i), From: from, To: []string{to}}
+			if i%3 == 2 && out[i-1].MID == strings.ToUpper(out[i-1].MID) && out[i-1].MID != strings.ToLower(out[i-1].MID) {
+				// every third message: a MID that differs from the previous message's only in the case of its letters - two
+				// messages (a station that already holds the one has not received the other); no PRNG draw is spent on this
+				m.MID = strings.ToLower(out[i-1].MID)
+			}
 			m.Subject = fmt.Sprintf("small %d", r.Intn(100))
 			m.Body = genBytes(r, 1+r.Intn(300), r.Intn(4))
 			if r.Intn(4) == 0 {
